@@ -39,6 +39,8 @@ fn base(prefix: &str, cdir: &PathBuf) -> cc::Build {
 fn main() {
     let repo = PathBuf::from(std::env::var("VERIF_REPO").unwrap_or_else(|_| "/repo".into()));
     let cdir = repo.join("c");
+    println!("cargo::rustc-env=VERIF_B3SUM_MAIN={}", repo.join("b3sum/src/main.rs").display());
+    println!("cargo::rerun-if-changed={}", repo.join("b3sum/src/main.rs").display());
     println!("cargo::rerun-if-env-changed=VERIF_REPO");
     for f in std::fs::read_dir(&cdir).expect("c dir") {
         println!("cargo::rerun-if-changed={}", f.unwrap().path().display());
